@@ -240,4 +240,14 @@ def replay(mod, pid, path, seed):
 
 
 if __name__ == "__main__":
-    sys.exit(main(sys.argv[1:]))
+    try:
+        rc = main(sys.argv[1:])
+    except SystemExit:
+        raise
+    except BaseException:  # noqa: BLE001 - the machinery failed (not the code under test): never exit 1, never print VIOLATION
+        import traceback
+
+        traceback.print_exc()
+        print("HARNESS ERROR: the check could not be carried out (see traceback); this is not a verdict about the property")
+        rc = 2
+    sys.exit(rc)
